@@ -1057,6 +1057,33 @@ def check_c17(tier, seed):
                 if not ok:
                     b.fail("C17.bounded.create.value", desc, f"got {getattr(r,'dtype',None)}{getattr(r,'shape',None)}, numpy {ref.dtype}{ref.shape}")
                 b.case(desc)
+    # dtype SPELLINGS: byte order and C-type aliases.  The tensor itself comes back exactly when the requested dtype EQUALS the tensor's (NumPy's
+    # dtype equality: '<f8' is float64 on this machine, '>f8' is not; np.longlong is int64), and the result's dtype is the requested one
+    for sdt in (np.float64, np.float32, np.int64):
+        native = np.dtype(sdt)
+        specs = [native.newbyteorder(">"), native.newbyteorder("<"), native.newbyteorder("="), native.str, native.newbyteorder(">").str, native.name, native.char, sdt]
+        if sdt is np.int64:
+            specs += [np.longlong, np.int_, "q", "l"]
+        if sdt is np.float64:
+            specs += [float, np.double, "d"]
+        for spec in specs:
+            for rn, rf in (("astensor", lambda t_, sp: mg.astensor(t_, dtype=sp)), ("tensor(copy=False)", lambda t_, sp: mg.tensor(t_, dtype=sp, copy=False)), ("astype(copy=False)", lambda t_, sp: t_.astype(sp, copy=False))):
+                src = mg.tensor(np.arange(1, 4).astype(sdt))
+                ref = np.asarray(src.data, dtype=spec) if rn != "astype(copy=False)" else src.data.astype(spec, copy=False)
+                d4 = dict(routine=rn, source_dtype=native.name, dtype_spec=repr(spec))
+                b.count("dtype spelling")
+                try:
+                    out = rf(src, spec)
+                except Exception as e:
+                    b.fail("C17.bounded.dtype_spelling.raises", d4, f"{type(e).__name__}: {e}")
+                    continue
+                if out.dtype != ref.dtype:
+                    b.fail("C17.bounded.dtype_spelling.dtype", d4, f"result dtype {out.dtype.str}, NumPy gives {ref.dtype.str}")
+                elif (out is src) != (np.dtype(spec) == native):
+                    b.fail("C17.bounded.dtype_spelling.pass_through", d4, f"tensor passed through: {out is src}; requested dtype equals the tensor's: {np.dtype(spec) == native}")
+                elif not np.array_equal(out.data, ref):
+                    b.fail("C17.bounded.dtype_spelling.value", d4, "values differ")
+                b.case(d4)
     for bad in (np.complex64, "U3", object):
         try:
             mg.zeros((2,), dtype=bad)
@@ -1146,6 +1173,51 @@ def check_c18(tier, seed):
                             if not np.array_equal(t.data, d0, equal_nan=True) or (g0 is not None and not np.array_equal(t.grad, g0)) or (g0 is None and t.grad is not None) or (t.creator, t.base, t.constant, len(t._ops)) != fields0:
                                 b.fail("C18.bounded.save_alters_tensor", desc, "saving altered the tensor, its gradient or its graph fields")
                             b.case(desc)
+        # how the file is addressed: str / pathlib.Path / os.PathLike x names with and without dots and suffixes.  The file numpy.savez
+        # itself writes for that target is the specification: exactly that file appears (no other), both spellings address the same file,
+        # and load() of it gives the tensor back; saving a second tensor under another name leaves the first file alone
+        import pathlib
+
+        names = ["plain", "run.v1", "ckpt.step.10", "weights.bak", "model.npy", "x.npz", "archive.NPZ", ".hidden", "dir.d/inner.v2"]
+        spell = [("str", str), ("pathlib.Path", pathlib.Path), ("PurePath->str", lambda p_: str(pathlib.PurePosixPath(p_)))]
+        for nm in names:
+            for sn, sf in spell:
+                d_ref = tempfile.mkdtemp(prefix="ref-", dir=tmpdir)
+                d_got = tempfile.mkdtemp(prefix="got-", dir=tmpdir)
+                for d_ in (d_ref, d_got):
+                    os.makedirs(os.path.join(d_, "dir.d"), exist_ok=True)
+                t = mg.tensor(rng.uniform(-1, 1, size=(2, 3)))
+                (t * 2.0).sum().backward()
+                desc = dict(name=nm, spelling=sn)
+                b.count("file addressing")
+                np.savez(sf(os.path.join(d_ref, nm)), data=t.data, grad=t.grad)
+                try:
+                    mg.save(sf(os.path.join(d_got, nm)), t)
+                except Exception as e:
+                    b.fail("C18.bounded.addressing.raises", desc, f"{type(e).__name__}: {e}")
+                    continue
+                listing = lambda d_: sorted(os.path.relpath(os.path.join(r_, f_), d_) for r_, _, fs_ in os.walk(d_) for f_ in fs_)  # noqa
+                if listing(d_ref) != listing(d_got):
+                    b.fail("C18.bounded.addressing.file_written", desc, f"mg.save wrote {listing(d_got)}, numpy.savez writes {listing(d_ref)} for the same target")
+                    continue
+                written = os.path.join(d_got, listing(d_got)[0])
+                try:
+                    r = mg.load(sf(written))
+                    if not (np.array_equal(r.data, t.data) and r.grad is not None and np.array_equal(r.grad, t.grad)):
+                        b.fail("C18.bounded.addressing.round_trip", desc, "load of the written file does not give the tensor back")
+                except Exception as e:
+                    b.fail("C18.bounded.addressing.load_raises", desc, f"{type(e).__name__}: {e}")
+                # a second tensor under a sibling name: the first file must still hold the first tensor
+                other = nm.replace("v1", "v2").replace("10", "11") if ("v1" in nm or "10" in nm) else nm + "2"
+                t2 = mg.tensor(rng.uniform(-1, 1, size=(4,)))
+                try:
+                    mg.save(sf(os.path.join(d_got, other)), t2)
+                    r1 = mg.load(written)
+                    if r1.shape != t.shape or not np.array_equal(r1.data, t.data):
+                        b.fail("C18.bounded.addressing.overwritten", desc, f"saving another tensor as {other!r} replaced the file written for {nm!r}")
+                except Exception as e:
+                    b.fail("C18.bounded.addressing.raises", dict(desc, second=other), f"{type(e).__name__}: {e}")
+                b.case(desc)
         for bad in (np.ones(3), [1.0], 2.0):
             try:
                 mg.save(io.BytesIO(), bad)
